@@ -60,6 +60,9 @@ DIRECTED = [
                                             ["sleep:4000", "puta:0:1000"]]),
     _d("stranded-after-unset:same-sender", [["sleep:1000", "puta:0:1000", "sleep:3000", "puta:0:1000"],
                                             ["setr:0:1", "sleep:2000", "setr:0:0", "sleep:1000", "get:0"]]),
+    _d("stranded-after-unset:younger-get-served", [["sleep:1000", "puta:0:1000"],
+                                                   ["setr:0:1", "sleep:2000", "setr:0:0", "geta:0", "setr:0:1", "sleep:2000"],
+                                                   ["sleep:4000", "get:0"]]),
     # sanity: what the same programs give without the switch
     _d("plain-fifo", [["puta:0:1000", "puta:0:0", "putd:0:8", "put:0:1"], ["sleep:10", "get:0", "geta:0", "getp:0", "getw:0"],
                       ["puta:0:8", "sleep:0", "putd:0:1000"], ["geta:0", "geta:0", "wany", "wany"]]),
@@ -67,6 +70,14 @@ DIRECTED = [
     _d("filters", [["putf:0:8:1:0:0", "putf:0:8:2:0:0"], ["sleep:10", "getf:0:0:1:2", "getf:0:0:1:1"], ["sleep:1", "putd:0:1000"],
                    ["sleep:100", "get:0"]]),
     _d("buffers", [["bputa:0:64:1000", "bput:0:0:0", "bputd:0:70000:8"], ["bget:0:12", "bgeta:0:0", "bgets:0:100000"]], mb="B"),
+]
+
+
+# F-C08-c: the peer cancels a communication whose other end is blocked in a one-simcall put/get (put_init()->wait(), Comm::send):
+# the exception leaves ActorImpl::simcall_.observer_ dangling and the victim's next test()/wait_any() dereferences it. Own process.
+CRASHING = [
+    _d("observer-dangling-after-failed-blocking-comm", [["geta:1", "putw:0:1000000", "wany"], ["geta:0", "sleep:1000", "cancel:0", "sleep:1000"]],
+       mb="PP"),
 ]
 
 
@@ -92,6 +103,9 @@ def run(ctx):
     jobs = []
     jobs.append(("hooks", PLAT, DIRECTED))
     jobs.append(("asan", PLAT, DIRECTED))
+    for d in CRASHING:
+        jobs.append(("hooks", PLAT, [d]))
+        jobs.append(("asan", PLAT, [d]))
     nb = (n + bs - 1) // bs
     for b in range(nb):
         plat = G.platform(ctx.sub_rng("plat", b))
